@@ -215,6 +215,15 @@ impl Property for C17 {
             out.push(mk(format!("semantic{k}/caps=all"), s.to_string(), WgslCapabilities::all()));
             out.push(mk(format!("semantic{k}/caps=empty"), s.to_string(), WgslCapabilities::empty()));
         }
+        // the text goes to the front end exactly as given: byte order marks, NUL and other characters a "helpful" pre-processing
+        // step would strip or normalise, before and after an otherwise valid shader (naga decides; the library must agree)
+        const DECOR: [&str; 12] = ["\u{feff}", "\u{feff}\u{feff}", "\0", "\u{1a}", "\u{c}", "\u{b}", "\u{2028}", "\u{85}", "\u{200b}", "\u{a0}", "\r", "\u{1b}[0m"];
+        for (k, d) in DECOR.iter().enumerate() {
+            let b = &base[k % base.len()];
+            out.push(mk(format!("decor{k}/prefix"), format!("{d}{b}"), WgslCapabilities::all()));
+            out.push(mk(format!("decor{k}/suffix"), format!("{b}{d}"), WgslCapabilities::all()));
+            out.push(mk(format!("decor{k}/prefix-nl"), format!("{d}\n{b}"), WgslCapabilities::all()));
+        }
         for i in 0..n {
             let mut rng = Rng::new(seed, 0xC17_0000 + i as u64);
             let b = &base[rng.below(base.len())];
